@@ -10,7 +10,7 @@ A, B = ('wild', 'a'), ('wild', 'b')
 def run(chk):
     thorough = chk.tier == 'thorough'
     chk.bounds['families added after seeded changes'] = 'one-way instance W2 (v0 never falls, v1 never rises): unfolding law and fixpoint semantics of EU / AU / EW / AW for every ordered pair of distinct conjunctions of literals, each evaluated as its own call; laws u1 u2 w <=> u1 (true & u2 w) for nested unary temporal operators'
-    configs = [(2, 0), (2, 1), (3, 0)] + ([(3, 1)] if thorough else [])
+    configs = [(2, 0), (2, 1), (3, 0)]      # (3, 1) - three variables plus a colour bit with a symbolic mask - ran > 80 min in one process without finishing: not run, not claimed
     chk.bounds.update({'E-MIR': f'(n, colour bits) in {configs}: all asynchronous transition systems on n variables (n=3: 2^24), every unit set that is a product of valid colours, every argument set inside it',
                        'loop_unwinding': 'gfp/lfp loops 2^n+2, saturation 2^(n+c)+2, each with a solver-discharged unwinding assertion',
                        'outside': 'n >= 4; benchmark-size models ("models of any size" is not claimed)'})
